@@ -51,6 +51,22 @@ def cell_values(dtype, n, rng, mode="distinct"):
         info = np.iinfo(dt)
         pool = [info.min, info.max, info.max // 2 + 1, 0, 1, 2, 3] + ([-1] if dt.kind == "i" else [])
         return np.array([rng.choice(pool) for _ in range(n)], dtype=dt)
+    if mode == "cancel":
+        # values that cancel: x next to -x (signed / float), or wrap to zero together (unsigned: 1 and max); sums and products of
+        # a row are 0 although the row holds non-zero cells
+        if dt.kind == "f":
+            pool = [1.0, -1.0, 2.5, -2.5, 0.0]
+        elif dt.kind == "i":
+            pool = [1, -1, 2, -2, 0]
+        else:
+            pool = [1, int(np.iinfo(dt).max), 0, 2, int(np.iinfo(dt).max) - 1]
+        out = []
+        while len(out) < n:
+            x = rng.choice(pool)
+            out.append(x)
+            if rng.random() < 0.6 and len(out) < n:
+                out.append((-x if dt.kind != "u" else (int(np.iinfo(dt).max) + 1 - x) % (int(np.iinfo(dt).max) + 1)))
+        return np.array(out[:n], dtype=dt)
     if mode == "small":
         hi = 5
         if dt.kind == "f":
